@@ -1,6 +1,6 @@
 CONSTANTS NEPs = ${NEPs}  GKinds = ${GKinds}  Engines = {"sherpa", "olla"}  Balancers = ${Balancers}
           Framings = ${Framings}  Routes = ${Routes}  NSteps = ${NSteps}  WithHealth = ${WithHealth}  Pattern = ${Pattern}  BurstN = ${BurstN}
-          Placements = ${Placements}  ReqModels = ${ReqModels}  BootKinds = ${BootKinds}  EpTypes = ${EpTypes}
+          Placements = ${Placements}  ReqModels = ${ReqModels}  BootKinds = ${BootKinds}  EpTypes = ${EpTypes}  Twins = ${Twins}
 SPECIFICATION Spec
 INVARIANT Export
 CHECK_DEADLOCK FALSE
